@@ -255,9 +255,17 @@ impl MessageBuilder {
           // Serialize
           .write_to_vec()
           .map_err(|e| create_security_error_and_log!("{e:?}"))
-          .and_then(|serialized_payload| {
+          .and_then(|mut serialized_payload| {
             match security_plugins.map(SecurityPluginsHandle::get_plugins) {
               Some(security_plugins) => {
+                // The DATA submessage pads its payload to a multiple of 4 bytes, and
+                // the receiver locates the CryptoFooter by counting from the end of the
+                // payload. Do the padding before encoding, so that none is appended
+                // after the footer.
+                serialized_payload.resize(
+                  crate::serialization::round_up_to_4(serialized_payload.len()),
+                  0,
+                );
                 security_plugins
                   .encode_serialized_payload(serialized_payload, &writer_guid)
                   // Add the extra qos
